@@ -12,8 +12,11 @@ Definition d_vld (v : Z) : option Z := if (0 <=? v) && (v <? 100) then Some v el
 Definition d_getter (xv : Z) : Z := 2 * xv + 1.
 Definition d_adapt (n : nat) (v : Z) : Z := v + 1000 * Z.of_nat n.
 
-Definition mstep := step d_vld d_getter 41 42 d_adapt 43.
-Definition mfired := fired d_vld d_getter 41 42 d_adapt 43.
+(* the number of filter invocations of one registration walk is c + k * (number of zz traits); c and k are measured
+   by the driver on the running tree and are part of the case *)
+Definition d_fcalls (c k : nat) (n : nat) : nat := (c + k * n)%nat.
+Definition mstep (c k : nat) := step d_vld d_getter 41 42 d_adapt 43 (d_fcalls c k).
+Definition mfired (c k : nat) := fired d_vld d_getter 41 42 d_adapt 43 (d_fcalls c k).
 
 Section Run.
   Variable vld : Z -> option Z.
@@ -21,7 +24,8 @@ Section Run.
   Variable fac_value mdef_value : Z.
   Variable adapt_value : nat -> Z -> Z.
   Variable ydef_value : Z.
-  Let stp := step vld getter_c fac_value mdef_value adapt_value ydef_value.
+  Variable fcalls : nat -> nat.
+  Let stp := step vld getter_c fac_value mdef_value adapt_value ydef_value fcalls.
 
   (* the paired run of the model: what the law is proved about *)
   Fixpoint run2 (a tw : st) (h : list (op * plan)) : list hstep :=
@@ -29,15 +33,15 @@ Section Run.
     | [] => []
     | (o, pl) :: r =>
         let '(a', out, lg) := stp pl a o in
-        let fr := fired vld getter_c fac_value mdef_value adapt_value ydef_value pl a o in
+        let fr := fired vld getter_c fac_value mdef_value adapt_value ydef_value fcalls pl a o in
         let skip := match pl with FaultCall _ _ => fr | _ => false end in
         let '(tw', outt, lgt) := if skip then (tw, Ok, []) else stp NoFault tw o in
         (o, pl, fr, mkObs out a' lg 0 0, mkObs outt tw' lgt 0 0) :: run2 a' tw' r
     end.
 End Run.
 
-(* initial state, initial registration digest, history *)
-Definition case := (st * Z * list hstep)%type.
+(* initial state, initial registration digest, filter-call constants (c, k), history *)
+Definition case := (st * Z * (nat * nat) * list hstep)%type.
 
 Definition dict_equiv (a b : list (Z * Z)) : bool :=
   forallb (fun kv => opt_eqb Z.eqb (dlookup (fst kv) b) (Some (snd kv))) a
@@ -48,23 +52,26 @@ Definition st_equiv (a b : st) : bool :=
   Z.eqb (x a) (x b) && pair_eqb (t a) (t b) && list_eqb Z.eqb (l a) (l b)
   && dict_equiv (d a) (d b) && seteq (s a) (s b)
   && opt_eqb Z.eqb (f a) (f b) && opt_eqb Z.eqb (m a) (m b) && Z.eqb (p a) (p b)
-  && opt_eqb Z.eqb (c a) (c b) && Z.eqb (ad a) (ad b) && opt_eqb Z.eqb (y a) (y b) && Z.eqb (ad2 a) (ad2 b).
+  && opt_eqb Z.eqb (c a) (c b) && Z.eqb (ad a) (ad b) && opt_eqb Z.eqb (y a) (y b) && Z.eqb (ad2 a) (ad2 b)
+  && Nat.eqb (oreg a) (oreg b) && list_eqb Z.eqb (zz a) (zz b) && Z.eqb (ade a) (ade b).
 
 Definition is_opaque (o : op) : bool := match o with Opaque _ => true | _ => false end.
+(* operations that legitimately change the notifier lists *)
+Definition changes_reg (o : op) : bool := match o with ObsAdd | ObsRemove | AddZ => true | _ => false end.
 (* handlers 6 (observer with a user filter) and 7 (getter of the depends_on property) are outside the model *)
 Definition unmodelled_handler (pl : plan) : bool := match pl with FaultHandler j _ => Nat.leb 6 j | _ => false end.
 
 (* codes: 100*step + 1 outcome, 2 state of the faulted object, 3 handler log, 4 fired flag, 5 twin state,
    6 registrations (a modelled operation registers or removes nothing: the digest stays what it was).
    Operations outside the model (Opaque) are skipped: only the law speaks about them. *)
-Fixpoint corr_hist (rega regt : Z) (i : Z) (a tw : st) (h : list hstep) : list Z :=
+Fixpoint corr_hist (fc fk : nat) (rega regt : Z) (i : Z) (a tw : st) (h : list hstep) : list Z :=
   match h with
   | [] => []
   | (o, pl, fr, oa, ot) :: r =>
-      let '(a', out, lg) := mstep pl a o in
-      let mfr := mfired pl a o in
+      let '(a', out, lg) := mstep fc fk pl a o in
+      let mfr := mfired fc fk pl a o in
       let skip := match pl with FaultCall _ _ => mfr | _ => false end in
-      let '(tw', _, _) := if skip then (tw, Ok, []) else mstep NoFault tw o in
+      let '(tw', _, _) := if skip then (tw, Ok, []) else mstep fc fk NoFault tw o in
       (if is_opaque o then []
        else map (fun cd => 100 * i + cd)
           (chk 1 (outcome_eqb out (o_out oa))
@@ -72,9 +79,9 @@ Fixpoint corr_hist (rega regt : Z) (i : Z) (a tw : st) (h : list hstep) : list Z
            ++ chk 3 (log_eqb lg (o_log oa))
            ++ chk 4 (unmodelled_handler pl || Bool.eqb mfr fr)
            ++ chk 5 (st_equiv tw' (o_st ot))
-           ++ chk 6 (Z.eqb (o_reg oa) rega && Z.eqb (o_reg ot) regt)))
-      ++ corr_hist (o_reg oa) (o_reg ot) (i + 1) (o_st oa) (o_st ot) r
+           ++ chk 6 (changes_reg o || (Z.eqb (o_reg oa) rega && Z.eqb (o_reg ot) regt))))
+      ++ corr_hist fc fk (o_reg oa) (o_reg ot) (i + 1) (o_st oa) (o_st ot) r
   end.
 
-Definition corr_codes (cs : case) : list Z := let '(init, reg0, h) := cs in corr_hist reg0 reg0 0 init init h.
-Definition law_codes (cs : case) : list Z := let '(init, _, h) := cs in law_hist 0 init h.
+Definition corr_codes (cs : case) : list Z := let '(init, reg0, (fc, fk), h) := cs in corr_hist fc fk reg0 reg0 0 init init h.
+Definition law_codes (cs : case) : list Z := let '(init, _, _, h) := cs in law_hist 0 init h.
